@@ -16,6 +16,11 @@ TOK = {
     "u2028": "\u2028", "bom": "\ufeff", "nul": "\x00", "d10": "4294967295", "d11": "42949672960", "ident": "info", "nl": "\n",
     "rawstr": 'r#"raw "q" info!("x")"#; ', "charq": "'\"' ", "dirign": "// breadlog:ignore\n", "dirnokvp": "// BREADLOG:no-kvp\r\n",
     "tab": "\t", "emoji": "\U0001F980",
+    # comment lines whose multi-byte characters start at every byte alignment (fixed-offset slicing of comment text)
+    "cmt_mb2_0": "// " + "\u00e9" * 12 + "\n", "cmt_mb2_1": "// a" + "\u00e9" * 12 + "\n",
+    "cmt_mb3_0": "// " + "\u4e16" * 9 + "\n", "cmt_mb3_1": "// a" + "\u4e16" * 9 + "\n", "cmt_mb3_2": "// ab" + "\u4e16" * 9 + "\n",
+    "cmt_mb4_0": "/* " + "\U0001F980" * 7 + " */\n", "cmt_mb4_1": "/* a" + "\U0001F980" * 7 + " */\n",
+    "cmt_mb4_2": "/* ab" + "\U0001F980" * 7 + " */\n", "cmt_mb4_3": "/* abc" + "\U0001F980" * 7 + " */\n",
 }
 
 
@@ -104,6 +109,9 @@ def run_batch(job):
                 out.problems.append(("zz_not_utf8.rs", "a file that is not valid UTF-8 was not reported as unreadable"))
             if after.get("zz_not_utf8.rs") != allfiles["zz_not_utf8.rs"]:
                 out.problems.append(("zz_not_utf8.rs", "a file that is not valid UTF-8 was modified"))
+                okb, _ = monitors.pure_insertion(allfiles["zz_not_utf8.rs"], after.get("zz_not_utf8.rs") or b"")
+                if not okb:
+                    out.problems.append(("zz_not_utf8.rs", "edit of a file that is not valid UTF-8 is not a pure insertion of reference tokens"))
         for name, data in files.items():
             if name not in totals:
                 out.problems.append((name, "file was not processed by --check (no per-file total) although another file was unreadable"
